@@ -113,7 +113,7 @@ def owners_token(spec, impl) -> set[str]:
     return own
 
 
-PRED_OWNER = {"c01": "C01", "c03": "C03", "c04": "C04", "c05": "C05", "c06": "C06", "c07": "C07", "c08": "C08", "c09": "C09", "c10": "C10",
+PRED_OWNER = {"c01": "C01", "c02": "C02", "c03": "C03", "c04": "C04", "c05": "C05", "c06": "C06", "c07": "C07", "c08": "C08", "c09": "C09", "c10": "C10",
               "c11": "C11", "c12": "C12", "c13": "C13", "c14": "C14", "c18": "C18"}
 
 
@@ -129,6 +129,8 @@ def trace_findings(result: dict, rec: dict) -> list[tuple[set[str], str, dict]]:
             own = owners_token(d["spec"], d["impl"])
         elif c == "events":
             own = {"C02"}
+        elif c == "listing":
+            own = {"C18"}
         else:
             own = set()
         out.append((own or set(TRACE_PROPS), f"step:{c}@line{st['line']}", d))
